@@ -1,5 +1,6 @@
 """C03 - multisig passes only with m valid signatures from m different listed keys."""
 import random, sys
+from ..par import SafePool
 from ..common import Report, REPO
 from .. import scncheck
 from ..gen.progs import push, op, b1
@@ -108,19 +109,19 @@ def record_random(args):
 
 def main(tier: str, seed: int) -> int:
     rep = Report('C03', tier, seed)
-    rep.rule = ('MC (Multisig.tla: the greedy matcher as a state machine, one action per signature/key comparison): every scenario '
-                'with n <= N distinct keys (3 key orders), m <= n, every sequence of m signatures over {each listed signer, an '
+    rep.rule = ('MC (Multisig.tla: the greedy matcher as a state machine, one action per chosen signature and per signature/key comparison): every scenario '
+                'with n <= N distinct keys (N = 3 quick, 5 thorough = the property\'s full bound, 57 M states; 3 key orders), m <= n, every sequence of m signatures over {each listed signer, an '
                 'outsider} x {no flag, permitted flag, non-permitted flag} + a malformed one; invariants TrueIffQuorum, '
-                'FewerNeverPass, KeysUsedOnce at every state; every scenario concretised with real keys and signatures and run '
+                'FewerNeverPass, KeysUsedOnce at every state; every scenario (for N = 5: every scenario with m <= 3 and a deterministic 1/61 sample of the rest, 174 k) concretised with real keys and signatures (reference signer over the reference message, all eight sigfields, every single-bit allowed operand) and run '
                 'through OP_CHECK_MULTISIG and OP_CHECK_MULTISIG_VERIFY (true / false / error compared). traces: n up to 20, m up '
                 'to 6, random signer multisets incl. duplicates and flag variants, and make_multisig_lock + joined '
                 'make_single_sig_witness outputs through run_auth_scripts, judged by TLC running the same state machine.')
     rep.assumptions = ['listed keys are distinct (precondition of the property)', 'ideal signatures (see C02)']
     quick = tier == 'quick'
-    scncheck.mc(rep, 'Multisig', 'mc', INV, run_mc, consts={'MaxN': 3 if quick else 4}, workers=16)
+    scncheck.mc(rep, 'Multisig', 'mc', INV, run_mc, consts={'MaxN': 3 if quick else 5}, workers=16, heap='8g' if quick else '14g', timeout=3000 if quick else 7000)
     import multiprocessing as mp
     n = 10000 if quick else 60000
-    with mp.get_context('fork').Pool(14) as pool:
+    with SafePool(14) as pool:
         cases = [c for ch in pool.map(record_random, [(seed * 37 + i, n // 28) for i in range(28)]) for c in ch]
     scncheck.judge(rep, 'Multisig', INV, cases, 'random multisig scenarios', consts={'MaxN': 0})
     return rep.finish()
